@@ -93,6 +93,9 @@ def check_C06(tier, seed):
         res = tlc_parse(v, c, INV_LINES)
         parsecheck.replay(v, exe, res, aspects={"diag", "diagpos"}, seed=seed,
                           renderings=("varied", "fp", "file") if tier == "quick" else ("canonical", "varied", "fp", "file"), tag="C06")
+    # diagnostics issued by a refusing validation callback (on an option, on a section after its body) carry the position too
+    res2 = tlc_parse(v, "cblines_quick.cfg", ["P_C06_Reported", "P_C06_Position"])
+    parsecheck.replay(v, exe, res2, aspects={"diag", "diagpos", "cb"}, seed=seed, renderings=("canonical",), tag="C06cb")
     # the rejected texts again, after an empty text (newlines, a comment) parsed into the same context through a different
     # entry point (file then buffer, buffer then stream, stream then file): file name and line numbering are the text's own
     res.behaviours = [b for b in res.behaviours if b["parses"][0]["exp"]["status"] == "fail"]
